@@ -49,8 +49,27 @@ func (s *Softmax) Apply(inputs []tensor.Tensor) ([]tensor.Tensor, error) {
 		axis += nDims
 	}
 
-	out, err := tensor.SoftMax(inputs[0], axis)
+	// The kernel of the tensor package for the last axis takes the maximum of a slice from the
+	// wrong elements, which gives NaN/Inf or inaccurate results for inputs of large magnitude.
+	// Its kernel for inner axes is right, so the normalised axis is made an inner axis by
+	// appending an axis of size one.
+	shape := input.Shape().Clone()
+
+	x, ok := input.Clone().(tensor.Tensor)
+	if !ok {
+		return nil, ops.ErrTypeAssert("tensor.Tensor", input.Clone())
+	}
+
+	if err := x.Reshape(append(shape.Clone(), 1)...); err != nil {
+		return nil, err
+	}
+
+	out, err := tensor.SoftMax(x, axis)
 	if err != nil {
+		return nil, err
+	}
+
+	if err := out.Reshape(shape...); err != nil {
 		return nil, err
 	}
 
